@@ -323,7 +323,11 @@ class Env:
         import pyairtouch.at5.comms.xC0_ctrl_status as cs
         zc = self.zc
         setting = zc.ZoneSetPointControl(set_point=5.0) if bad else zc.ZoneDamperControl(open_percentage=(sid // 16) % 101)
-        sub = zc.ZoneControlMessage(zone_control=[zc.ZoneControlData(zone_number=sid % 16, zone_power=zc.ZonePowerControl.UNCHANGED, zone_setting=setting)])
+        # (a control message may address several zones at once: one, two or three records, depending on the sid - messages of the same kind
+        # with different record counts wait in the buffer together)
+        n = 1 + (1 if sid % 7 == 3 else 0) + (1 if sid % 11 == 4 else 0)
+        sub = zc.ZoneControlMessage(zone_control=[zc.ZoneControlData(zone_number=(sid + k) % 16, zone_power=zc.ZonePowerControl.UNCHANGED, zone_setting=setting)
+                                                  for k in range(n)])
         return cs.ControlStatusMessage(sub)
 
     def expected_frame(self, header, message):
